@@ -10,6 +10,8 @@ type bufTpl struct {
 
 func (t bufTpl) Execute(w io.Writer, _ interface{}) error {
 	if t.err != nil {
+		// a template fails while executing: part of its output is already written
+		io.WriteString(w, t.text)
 		return t.err
 	}
 	_, err := io.WriteString(w, t.text)
